@@ -15,7 +15,7 @@ ws = vlib.Workspace("dev")
 try:
     check.weave_units(ws, units)
     feats = registry.UNITS[units[0]].get("features")
-    res, meta, raw = vlib.kani_run(ws, crate, hs, features=feats, timeout=timeout + 300, harness_timeout=timeout, solver=solver, modpath=os.environ.get("MODPATH"))
+    res, meta, raw = vlib.kani_run(ws, crate, hs, features=feats, timeout=timeout + 300, harness_timeout=timeout, solver=solver, modpath=os.environ.get("MODPATH"), c_lib=os.environ.get("CLIB"))
     print(meta)
     if not res:
         print(raw[-6000:])
